@@ -11,6 +11,8 @@ TECH = {
  "C13": "effect analysis: frame conditions of Optimize and RemoveStyling",
  "C14": "effect analysis: frame condition of ForceDuration",
  "C15": "effect analysis: frame condition of ApplyLinearCorrection",
+ "C17": "dataflow of io.Reader parameters into a whitelist of chunk-agnostic consumers + zero-rule on raw Read + path enumeration of the bufio.SplitFunc over an interval domain",
+ "C18": "all-paths error-propagation analysis on the SSA control-flow graph (I/O error sources, scanner.Err discipline, flush discipline)",
  "C19": "effect analysis (writer purity) + map-range accumulator classification + nondeterminism-source reachability",
  "C20": "whole-package effect analysis: no store to package-level state outside init; zero-rules for go/select/unsafe",
 }
@@ -22,6 +24,8 @@ TEXT = {
  "C13": "Static decision of the frame conditions of Optimize (only deletes map entries) and RemoveStyling (writes only styling fields).",
  "C14": "Static decision of the frame condition of ForceDuration (writes only EndAt and the slice). Which cues are trimmed is not decided.",
  "C15": "Static decision of the frame condition of ApplyLinearCorrection (writes only StartAt/EndAt, never the slice). Numeric accuracy is not decided.",
+ "C17": "Static decision that the reader argument reaches only consumers documented to be independent of read sizes, that no raw Read exists in the package, and that the line splitter requests more data whenever its CR look-ahead byte has not arrived (all paths of the split function enumerated). Given these the parse is a function of the byte sequence; chunk-independence of bufio/encoding/xml/astits themselves is trusted.",
+ "C18": "Static all-paths decision that every I/O error source's error is tested and leads to a non-nil error return (or a frozen, reasoned end-of-input conversion), that Scan()==false is always followed by an Err() check before a success return, and that buffered sinks are flushed. Close errors are not demanded by the statement and not checked.",
  "C19": "Static all-paths decision that writers are pure (no effect on the cue list or globals) and deterministic (map iteration reaches output only through sorted/commutative accumulators; no clock/random source but Now). Close to sufficient for the statement, given deterministic encoding/xml and fmt.",
  "C20": "Static decision, over every function of the package, that nothing outside init writes shared state; with no goroutines/unsafe this rules out data races through the package's own memory for independent calls.",
 }
